@@ -26,6 +26,7 @@ RULE = ("seeded sampling over entry point x forward method x family x (n, batch)
         "reference gradient and (unless the case is first-order only) the second-order contraction was compared with a non-zero reference")
 MIN_NONTRIVIAL = {"quick": 800, "thorough": 6000}
 ASSUMPTIONS = [
+    "group big: 40-64 unknowns, contraction constant 0.8 / 0.9 (Jacobian cond <= 19), newton forward, Krylov backward at rtol 1e-10 (needs well over 10 iterations)",
     "problem families of C03 (contraction constant <= 0.6, Jacobian cond <= 4); forward tolerances f_tol = x_tol = 1e-10 (gd/adam: x_rtol 1e-12/1e-9)",
     "a forward call that warned is not differentiated (the formula is stated at a converged point); a backward solve that warned is not compared",
     "iterative backward solvers are given rtol=1e-10, atol=1e-12; the default backward keeps its own rtol=1e-6 (tolerance scaled accordingly)",
@@ -34,11 +35,11 @@ ASSUMPTIONS = [
 ]
 BUDGET = {"quick": {"worker_timeout": 900, "case_timeout": 120}, "thorough": {"worker_timeout": 3300, "case_timeout": 300}}
 REQUIRED_COUNTERS = {
-    "quick": {"cot_nl": 150, "cot_tiny": 80, "nested_backward_solves": 200, "first_order_compared": 800, "second_order_compared": 600, "backward_solves": 1500, "backward_default_krylov": 60,
+    "quick": {"late_backward_compared": 40, "big_system_cases": 25, "cot_nl": 150, "cot_tiny": 80, "nested_backward_solves": 200, "first_order_compared": 800, "second_order_compared": 600, "backward_solves": 1500, "backward_default_krylov": 60,
               "backward_default_dense": 60, "y0_nograd_checked": 150, "nontensor_param_cases": 100, "complex_cases": 100,
               "pair_compared": 60, "placement_module": 60, "placement_editable_derived": 60, "placement_explicit_nt": 60,
               "fwd_gd": 20, "fwd_adam": 20, "fwd_anderson_acc": 30, "fwd_newton": 60, "backward_gmres": 10, "backward_cg": 60},
-    "thorough": {"cot_nl": 1500, "cot_tiny": 800, "nested_backward_solves": 2000, "first_order_compared": 5000, "second_order_compared": 4000, "backward_solves": 10000, "backward_default_krylov": 600,
+    "thorough": {"late_backward_compared": 240, "big_system_cases": 200, "cot_nl": 1500, "cot_tiny": 800, "nested_backward_solves": 2000, "first_order_compared": 5000, "second_order_compared": 4000, "backward_solves": 10000, "backward_default_krylov": 600,
                  "backward_default_dense": 600, "y0_nograd_checked": 1500, "nontensor_param_cases": 1000, "complex_cases": 1000,
                  "pair_compared": 600, "placement_module": 600, "placement_editable_derived": 600, "placement_explicit_nt": 600,
                  "fwd_gd": 200, "fwd_adam": 200, "fwd_anderson_acc": 300, "fwd_newton": 600, "backward_gmres": 100, "backward_cg": 600},
@@ -49,6 +50,8 @@ METHODS = {"rootfinder": RF, "equilibrium": RF + ["anderson_acc"], "minimize": R
 TASK_FAMILIES = {"rootfinder": ["tanh", "affine", "holo"], "equilibrium": ["tanh", "affine", "holo"], "minimize": ["quad", "quartic"]}
 # (n, batch index): total unknowns 1, 2, 3, 5 | 6, 9, 14, 6, 12, 18, 8
 SHAPES = [(1, 0), (2, 0), (3, 0), (5, 0), (6, 0), (9, 0), (14, 0), (2, 1), (3, 2), (6, 1), (2, 2), (1, 1)]
+# directed large systems (a Krylov backward solve then needs well over 10 iterations): indices len(SHAPES_SMALL)..
+SHAPES_BIG = [(40, 0), (64, 0), (24, 1)]
 BCK = {
     "default": {},
     "exactsolve": {"method": "exactsolve"},
@@ -81,6 +84,15 @@ def cases(seed, tier):
         # linear in the cotangent) / a loss that is nonlinear in the solution (the cotangent depends on the parameters)
         d["cot"] = rng.choice(["rand", "rand", "rand", "nl", "nl", "tiny"])
         out.append(d)
+    # large systems with tight Krylov backward solvers (first order + second order on a third of them)
+    NB = 36 if tier == "quick" else 300
+    for i in range(NB):
+        rng = random.Random(sub_seed(seed, "c04b", i))
+        task = tasks[i % 3]
+        out.append({"group": "big", "task": task, "seed": sub_seed(seed, "c04bs", i), "method": "newton",
+                    "family": rng.choice(["tanh", "affine"] if task != "minimize" else ["quad", "quartic"]), "shape": len(SHAPES) + i % len(SHAPES_BIG),
+                    "q": rng.choice([0.8, 0.9, 0.9]), "bck": ["bicgstab", "cg", "bicgstab", "default"][(i // 6) % 4], "placement": rng.choice(optfam.PLACEMENTS),
+                    "gradset": "all", "y0": "zero", "y0grad": False, "order": 2 if i % 3 == 0 else 1, "cot": rng.choice(["rand", "nl"])})
     # pairs: the same problem solved by two (method, y0) combinations must give the same gradient
     NP = 150 if tier == "quick" else 1200
     for i in range(NP):
@@ -91,6 +103,19 @@ def cases(seed, tier):
                     "family": rng.choice(TASK_FAMILIES[task]), "shape": rng.randrange(len(SHAPES)), "q": rng.choice([0.2, 0.4, 0.6]),
                     "bck": rng.choice(["default", "exactsolve", "bicgstab"]), "placement": rng.choice(optfam.PLACEMENTS),
                     "gradset": "all", "y0": "zero", "y0grad": False, "order": 1})
+    # history on one object: solve, the object's holders rebound to a second generation of tensors, solve again, ONE backward through both
+    # (oracle: the explicit-parameter form, whose gradients the main group compares with the implicit function theorem)
+    from vf import funcs as _funcs
+    kl = 0
+    for fname in _funcs.FUNCTIONALS:
+        if fname.split(":")[0] not in ("rootfinder", "equilibrium", "minimize"):
+            continue
+        for holder in ("list", "dict", "subobject", "nnmodule", "attribute"):
+            for r in range(1 if tier == "quick" else 6):
+                rng = random.Random(sub_seed(seed, "c04l", fname, holder, r))
+                out.append({"group": "late", "kind": "late_backward", "functional": fname, "rep": "rebind_" + holder, "holder": holder,
+                            "d": rng.choice([2, 3, 7]), "s": 0.4, "seed": sub_seed(seed, "c04ls", kl)})
+                kl += 1
     # observation only: complex non-holomorphic function (the statement's formula does not cover it; reported as a counter)
     NO = 12 if tier == "quick" else 60
     for i in range(NO):
@@ -177,12 +202,17 @@ def _forward(fn, pres, y0, method, bck, obs, tag):
 
 
 def run_case(desc):
+    if desc.get("group") == "late":
+        from vf import c09_extra
+        return c09_extra.run_late(desc)
     from xitorch.optimize import rootfinder, equilibrium, minimize
     obs = Obs(desc)
     task, method, family = desc["task"], desc["method"], desc["family"]
     fn = {"rootfinder": rootfinder, "equilibrium": equilibrium, "minimize": minimize}[task]
     tgen = torch.Generator().manual_seed(desc["seed"])
-    n, bidx = SHAPES[desc["shape"]]
+    n, bidx = (SHAPES + SHAPES_BIG)[desc["shape"]]
+    if desc["group"] == "big":
+        obs.count("big_system_cases")
     batch = optfam.BATCHES[bidx]
     cplx = optfam.FAMILIES[family][1]
     dt = torch.complex128 if cplx else torch.float64
